@@ -59,12 +59,19 @@ def check_mi(ctx, case):
         kw['bins_number'] = int(case['bins_number'])
     obj = must(case, 'MIADistinguisher(uniform edges)', scared.MIADistinguisher, partitions=None if parts is None else list(parts), precision=precision, **kw)
     cuts = [0] + list(case['cuts']) + [n]
-    for a, b in zip(cuts, cuts[1:]):
-        if b > a:
-            must(case, 'MIA.update', obj.update, gen.L(case, traces[a:b]), gen.L(case, data[a:b], 2))
+    mid = list(case.get('mid_computes') or [])
     with warnings.catch_warnings():
         warnings.simplefilter('ignore')
+        for bi, (a, b) in enumerate(zip(cuts, cuts[1:])):
+            if b > a:
+                must(case, 'MIA.update', obj.update, gen.L(case, traces[a:b]), gen.L(case, data[a:b], 2))
+                if bi < len(mid) and mid[bi]:
+                    must(case, 'MIA.compute between batches', obj.compute)        # must not disturb what follows
         res = must(case, 'MIA.compute', obj.compute)
+        if case.get('compute_twice'):
+            res2 = must(case, 'MIA.compute (second call)', obj.compute)
+            if not dist.same(res, res2):
+                raise Violation('MIA: two consecutive compute() calls without new data differ', case)
     W = data.shape[1]
     if not isinstance(res, np.ndarray) or res.shape != (W, s):
         raise Violation('MIA: result shape %s, expected (words, samples) = %s' % (np.shape(res), (W, s)), case)
@@ -106,7 +113,8 @@ def check_mi(ctx, case):
                 continue
             if math.isinf(g):
                 raise Violation('MIA: word %d sample %d is infinite' % (j, i), case)
-            atol = 1e-9 if res.dtype == np.float64 else 5e-5
+            # rounding of the chosen precision: float32 accumulators give float32-accurate probabilities whatever the dtype of the returned array
+            atol = 5e-5 if (np.dtype(precision) == np.float32 or res.dtype != np.float64) else 1e-9
             ok = any(v is not None and abs(g - v) <= atol for v in values)
             if not ok:
                 vs = [v for v in values if v is not None]
@@ -300,7 +308,8 @@ def mi_cases(draw, precision, tdtypes):
             cols.append(c)
         traces = np.stack(cols, axis=1).astype(tdt)
     return {'kind': 'mi', 'precision': precision, 'edges': edges, 'edges_kind': ekind, 'edges_form': form, 'edges_float': edges_float,
-            'bins_number': bins_number, 'partitions': partitions, 'traces': traces, 'data': data, 'cuts': cuts, 'independent': independent}
+            'bins_number': bins_number, 'partitions': partitions, 'traces': traces, 'data': data, 'cuts': cuts, 'independent': independent,
+            'mid_computes': [draw(st.booleans()) for _ in range(len(cuts) + 1)], 'compute_twice': draw(st.booleans())}
 
 
 def _independent_column(g, labels, bin_values):
